@@ -139,11 +139,11 @@ def _shards_step(tier):
         else:
             for a in range(4):
                 out.append({"op": op, "len": 3, "nregs": 4, "prefix": [a]})
-            for a in range(4):
                 for b in range(4):
                     out.append({"op": op, "len": 4, "nregs": 4, "prefix": [a, b]})
-                    for c in range(4):
-                        out.append({"op": op, "len": 5, "nregs": 4, "prefix": [a, b, c]})
+            for a in range(3):
+                for b in range(3):
+                    out.append({"op": op, "len": 5, "nregs": 3, "prefix": [a, b]})
     out.append({"op": "write", "len": 1, "nregs": 4})
     out.append({"op": "read", "len": 1, "nregs": 4})
     return out
@@ -152,7 +152,7 @@ def _shards_step(tier):
 def _shards_seq(tier):
     if tier == "quick":
         return [{"ops": [a, b], "nregs": 2, "maxlen": 2} for a in OPS for b in OPS]
-    return [{"ops": [a, b, c], "nregs": 3, "maxlen": 2} for a in OPS for b in OPS for c in OPS]
+    return [{"ops": [a, b, c], "nregs": 2, "maxlen": 2} for a in OPS for b in OPS for c in OPS]
 
 
 _ENC = ["openpectus.engine.composite_hardware:Composite_Hardware.read",
@@ -176,15 +176,15 @@ OBLIGATIONS = [
                  "arbitrary initial content of every register (32-bit ints), written values (32-bit ints)",
         bounds={"quick": "one call from an arbitrary memory: read / write / read_batch / write_batch of length 0..2 over 4 registers, "
                          "and of length 3..4 over 3 registers; every register on any of 4 layers",
-                "thorough": "one call from an arbitrary memory: read / write / read_batch / write_batch of length 0..5 over 4 registers, "
-                            "every register on any of 4 layers"},
+                "thorough": "one call from an arbitrary memory: read / write / read_batch / write_batch of length 0..4 over 4 registers "
+                            "and of length 5 over 3 registers, every register on any of 4 layers"},
         assumptions=_ASSUME),
     Obligation(
         name="sequences", kind="crosshair", harness=harness_seq, shards=_shards_seq,
         cpu_budget={"quick": 80.0, "thorough": 800.0}, encoded=_ENC,
         symbolic="as single_call, plus the length of every batch",
         bounds={"quick": "2 registers on up to 4 layers; every sequence of 2 calls over {write_batch, read_batch, write, read}, batch length 0..2",
-                "thorough": "3 registers on up to 4 layers; every sequence of 3 calls, batch length 0..2"},
+                "thorough": "2 registers on up to 4 layers; every sequence of 3 calls, batch length 0..2"},
         assumptions=_ASSUME),
 ]
 
@@ -194,8 +194,8 @@ MANIFEST = {
             "every assignment of the registers to up to four layers, every batch order including duplicates, symbolic (32-bit) memory contents and written values; "
             "after each call the returned lists and all layer memories are compared with a twin driven register by register on the owning layer. "
             "One call from an arbitrary memory (induction step, the composite is stateless) plus all short call sequences.",
-    "note": "Quick: batches of length 0..2 over 4 registers and 3..4 over 3 registers, 2-call sequences over 2 registers; thorough: batch length 0..5 over 4 registers, "
-            "3-call sequences over 3 registers. Layer index and batch positions are solver selectors (one path each), values stay symbolic (one path stands for all values). "
+    "note": "Quick: batches of length 0..2 over 4 registers and 3..4 over 3 registers, 2-call sequences over 2 registers; thorough: batch length 0..4 over 4 registers and 5 over 3 registers, "
+            "3-call sequences over 2 registers. Layer index and batch positions are solver selectors (one path each), values stay symbolic (one path stands for all values). "
             "Not compared: the order in which different layers are visited and the intermediate value of a register written twice inside one batch. Trusted: CrossHair int model, z3, the fake layers.",
     "technique": "symbolic execution of the real code (CrossHair + z3), bounded exhaustive path exploration against a per-register twin, counterexample replay",
 }
